@@ -4168,7 +4168,16 @@ serverThread (void* parameter)
                     if (MasterConnection_isRunning(connection) == false) {
 
                         if (connection->connectionThread) {
+                            /* release the lock while joining: the connection thread may need it to terminate */
+#if (CONFIG_USE_SEMAPHORES == 1)
+                            Semaphore_post(self->openConnectionsLock);
+#endif
+
                             Thread_destroy(connection->connectionThread);
+
+#if (CONFIG_USE_SEMAPHORES == 1)
+                            Semaphore_wait(self->openConnectionsLock);
+#endif
 
 #if (CONFIG_USE_SEMAPHORES == 1)
                             Semaphore_wait(connection->stateLock);
